@@ -79,6 +79,7 @@ type c17Data struct {
 	Calls      []*c17Call        `json:"calls"`
 	Reads      []*c17Read        `json:"reads"`
 	Steps      []string          `json:"clock_steps"`
+	Reconf     *c17Reconf        `json:"reconfigured,omitempty"`
 	OpenFailed []string          `json:"open_failures,omitempty"`
 	Initial    map[string]string `json:"-"`
 	InitNames  []string          `json:"initial_files"`
@@ -90,6 +91,14 @@ type c17Data struct {
 	removed    map[string]func() []byte
 	gaps       [][2]int64 // jumped-over intervals of the virtual timeline (elapsed ns)
 	jumped     bool
+}
+
+// c17Reconf: a configuration reload at runtime (level and interval only).
+type c17Reconf struct {
+	Call     int64 `json:"call"`
+	Return   int64 `json:"return"`
+	Level    int   `json:"level"`
+	Interval int   `json:"interval_s"`
 }
 
 //go:norace
@@ -316,6 +325,22 @@ func c17Body(rc *RunCtx) {
 		})
 		tasks = append(tasks, tk)
 	}
+	// configuration reload at runtime: level and repeat interval change while loggers are active
+	if useConf && simrt.ChanceF(1, 4) {
+		rcf := &c17Reconf{Level: simrt.ChooseF(4), Interval: []int{10, 0, 1, 3, 30}[simrt.ChooseF(5)]}
+		at := simrt.ChooseF(12000)
+		tk := simrt.GoNamed("reconfig", func() {
+			simrt.Sleep(time.Duration(at) * time.Millisecond)
+			simrt.Fault("reconfig_level_interval")
+			c17SetReconf(d, rcf)
+			rcf.Call = simrt.Stamp()
+			lg.ApplyConfig(&stubConf{m: map[string]string{
+				"log_rotation_enabled": strconv.FormatBool(d.Rotation), "log_keep_days": strconv.Itoa(d.KeepDays),
+				"_log_interval": strconv.Itoa(rcf.Interval), "log_level": []string{"debug", "info", "warn", "error"}[rcf.Level]}})
+			rcf.Return = simrt.Stamp()
+		})
+		tasks = append(tasks, tk)
+	}
 	// clock steps
 	if simrt.Chance(1, 2) {
 		nSteps := 1 + simrt.Choose(3)
@@ -420,6 +445,9 @@ func c17OpenFailed(d *c17Data, p string) {
 }
 
 //go:norace
+func c17SetReconf(d *c17Data, r *c17Reconf) { d.Reconf = r }
+
+//go:norace
 func c17Gap(d *c17Data, a, b int64) { d.gaps = append(d.gaps, [2]int64{a, b}) }
 
 //go:norace
@@ -468,19 +496,61 @@ func c17After(rc *RunCtx, res *simrt.Result) {
 			off += len(ln) + 1
 		}
 	}
-	levelOK := func(m string) bool {
+	levelPass := func(m string, level int) bool {
 		switch m {
 		case "Error", "Errorf", "Println", "Printf":
 			return true
 		case "Warn", "Warnf":
-			return d.Level <= 2
+			return level <= 2
 		case "Info", "Infof", "Infoln":
-			return d.Level <= 1
+			return level <= 1
 		case "Debug", "Debugf":
-			return d.Level <= 0
+			return level <= 0
 		}
 		return false
 	}
+	// settings that may have been in force during a call: the original ones unless the call
+	// began after the reload returned, the reloaded ones unless it returned before the reload began
+	settings := func(c *c17Call) (levels, intervals []int) {
+		r := d.Reconf
+		if r == nil || r.Call == 0 || r.Return == 0 || c.Call < r.Return {
+			levels, intervals = append(levels, d.Level), append(intervals, d.Interval)
+		}
+		if r != nil && r.Call != 0 && (c.Return == 0 || c.Return > r.Call) {
+			levels, intervals = append(levels, r.Level), append(intervals, r.Interval)
+		}
+		return
+	}
+	// mayWrite: some setting in force lets the line through; mustWrite: every one does
+	mayWrite := func(c *c17Call) bool {
+		ls, _ := settings(c)
+		for _, l := range ls {
+			if levelPass(c.Method, l) {
+				return true
+			}
+		}
+		return false
+	}
+	mustWrite := func(c *c17Call) bool {
+		ls, _ := settings(c)
+		for _, l := range ls {
+			if !levelPass(c.Method, l) {
+				return false
+			}
+		}
+		return true
+	}
+	maxInterval := func(c *c17Call) int {
+		_, is := settings(c)
+		m := 0
+		for _, i := range is {
+			if i > m {
+				m = i
+			}
+		}
+		return m
+	}
+	levelOK := func(m string) bool { return levelPass(m, d.Level) }
 	cached := func(m string) bool { return m != "Debug" && m != "Debugf" }
 	ownName := func(ms int64) string {
 		if !d.Rotation {
@@ -501,7 +571,7 @@ func c17After(rc *RunCtx, res *simrt.Result) {
 		}
 		if len(hs) == 1 {
 			c.File, c.Off = hs[0].file, hs[0].off
-			if !levelOK(c.Method) {
+			if !mayWrite(c) {
 				viol("below-level-line", fmt.Sprintf("call #%d %s is below the configured level but was written", c.N, c.Method))
 			}
 			ln := hs[0].line
@@ -543,14 +613,14 @@ func c17After(rc *RunCtx, res *simrt.Result) {
 			continue
 		}
 		// not found
-		if !levelOK(c.Method) {
+		if !mustWrite(c) {
 			continue
 		}
 		suppressed := false
-		if cached(c.Method) && d.Interval > 0 {
+		if iv := maxInterval(c); cached(c.Method) && iv > 0 {
 			for _, e := range d.Calls {
 				if e != c && e.ID == c.ID && cached(e.Method) && len(hits[e.Token]) > 0 && e.Call < c.Return &&
-					e.RetMs > c.CallMs-int64(d.Interval)*1000-50 { // its rate-limit stamp lies in [CallMs, RetMs]
+					e.RetMs > c.CallMs-int64(iv)*1000-50 { // its rate-limit stamp lies in [CallMs, RetMs]
 					suppressed = true
 				}
 			}
@@ -562,7 +632,7 @@ func c17After(rc *RunCtx, res *simrt.Result) {
 		viol("lost-line", fmt.Sprintf("call #%d (%s id %q %s, at clock %s, task %d) is at/above the level and not rate-limited but appears in no log file", c.N, c.Method, c.ID, c.Token, time.UnixMilli(c.CallMs).UTC().Format("2006-01-02T15:04:05.000"), c.Task))
 	}
 	// must-suppress: single task, no clock steps
-	if d.Tasks == 1 && !d.jumped && d.Interval > 0 {
+	if d.Tasks == 1 && !d.jumped && d.Interval > 0 && d.Reconf == nil {
 		var lastEmit = map[string]int64{}
 		for _, c := range d.Calls {
 			if !cached(c.Method) || !levelOK(c.Method) || c.Return == 0 {
